@@ -108,6 +108,10 @@ package store
 //@   assert at call TopicUpdate [C08] same_topic: $1 == topic
 // (C04: the delete-transaction number is recorded only for a deletion that took place: a failed MessageDeleteList is
 // reported, never papered over by the writes that follow)
+// (C18: "deleting ... a range of messages together with its log ... either takes full effect or none": the deletion with
+// its log entry, the topic row and the subscription rows are three writes that the adapters commit one by one. Known
+// finding - the code says "TODO: move to adapter" - stated as: no separately committed write follows the deletion.)
+//@   assert at call TopicUpdate [C18] one_transaction: called("MessageDeleteList") == old(called("MessageDeleteList"))
 //@   assert at call TopicUpdate [C04] only_after_the_deletion_succeeded: err == nil
 //@   assert at call SubsUpdate [C04] only_after_the_number_is_recorded: err == nil
 //@   assert at call MessageDeleteList [C04] the_request_itself: $1 == topic && (delID > 0 ==> $2 != nil && $2.DelId == delID && $2.Topic == topic && ref($2.SeqIdRanges) == ref(ranges) && len($2.SeqIdRanges) == len(ranges))
